@@ -434,8 +434,14 @@ def session_history(rng, net, mtu, length, p_mut=0.15, p_noise=0.05, p_misc=0.1,
         elif k < 0.42:
             n = rng.choice([1, 2, 3, max_emit]) if rng.random() < 0.9 else min(cap_emit(mtu), rng.choice([cap_emit(mtu), 20]))
             fr, _ = f_emit(rng, net, cur, n=max(1, n), bridged=rng.random() < 0.2)
-        elif k < 0.62:
+        elif k < 0.60:
             fr = f_probe(rng, net, to_me=rng.random() < probes_to_me)
+        elif k < 0.64:
+            # the mapper keeps the responder charged; sequence number 0 commands occur too (only sequenced ones are acknowledged)
+            fr = W.simple(W.OP_CHARGE, net.own, net.mappers[cur], rng.choice([0, rng.randint(1, 0xFFFF)]),
+                          eth_src=net.bridges[cur] if rng.random() < 0.2 else None)
+        elif k < 0.66:
+            fr, _ = f_emit(rng, net, cur, seq=0, n=rng.randint(1, 2))
         elif k < 0.74:
             fr = f_query(rng, net, cur, bridged=rng.random() < 0.2)
         elif k < 0.88:
